@@ -154,9 +154,15 @@ func runC17(cfg *config) *Report {
 	}
 	obs := observers()
 	for i := 0; i < n; i++ {
-		f, err := genFile(r, genOpts{maxCL: 2, maxBundles: 2, maxItems: 2, mutateP: 30})
+		f, err := genFile(r, genOpts{maxCL: 2, maxBundles: 2, maxItems: 2, mutateP: 30, b64: 40, zones: true})
 		if err != nil {
 			continue
+		}
+		if i%2 == 0 && len(f.CashLetters) > 1 {
+			// cash letter IDs in descending order (observers must not reorder them)
+			for a, b := 0, len(f.CashLetters)-1; a < b; a, b = a+1, b-1 {
+				f.CashLetters[a], f.CashLetters[b] = f.CashLetters[b], f.CashLetters[a]
+			}
 		}
 		kind := "valid"
 		if i%3 == 1 {
